@@ -951,6 +951,8 @@ package grpctunnel
 //@   inline
 
 //@ func (*tunnelChannel).Err
+//@   witness isnil = ite(c.err == nil, 1, 0)
+//@   witness iseof = ite(c.err == io.EOF, 1, 0)
 //@   locks c.mu
 //@   assigns nothing
 //@   ensures[C04] @clean  old(c.err) == io.EOF ==> result == nil
@@ -1402,6 +1404,7 @@ package grpctunnel
 //@   ensures fresh(result)
 
 //@ func (*reverseChannels).add
+//@   witness n = len(c.chans)
 //@   requires ch != nil
 //@   locks c.mu
 //@   assigns nothing
@@ -1412,6 +1415,7 @@ package grpctunnel
 //@   nopanic[C09,C12]
 
 //@ func (*reverseChannels).remove
+//@   witness n = len(c.chans)
 //@   locks c.mu
 //@   assigns nothing
 //@   ghost at int = -1
